@@ -121,38 +121,111 @@ def derive_layout_copy(src, fn):
 
 
 def derive_pred_copy(src, fn):
-    """spec copy of a Modifiers predicate: `|`->`||`, `&`->`&&`, `^`->`!=` (bool operators Verus cannot read)"""
-    toks = body_tokens(src, fn)
-    sigi = [k for k, t in enumerate(toks) if t.kind not in ('ws', 'lcomment', 'bcomment')]
-    out = [t.text for t in toks]
-    depth_ops = {}
-    depth = 0
-    for x, k in enumerate(sigi):
+    """spec copy of a Modifiers predicate. Verus cannot read `|`, `&`, `^` on bool, so the body - a single expression over
+    those operators, method calls, field accesses, `!` and parentheses - is re-emitted fully parenthesised with
+    `&` -> `&&`, `^` -> `!=`, `|` -> `||`, following Rust's precedence (`&` binds tighter than `^`, `^` tighter than `|`).
+    Kani proves the compiled predicate equal to this copy for all 512 Modifiers values, so a wrong translation is caught."""
+    toks = [t for t in body_tokens(src, fn) if t.kind not in ('ws', 'lcomment', 'bcomment')]
+    if not toks or toks[0].text != '{' or toks[-1].text != '}':
+        raise ExtractError('predicate %s: unexpected body shape' % fn.key)
+    toks = toks[1:-1]
+
+    def single(k):
         t = toks[k]
-        if t.kind != 'p':
-            if t.kind == 'id' and t.text in ('return', 'loop', 'while', 'for', 'unsafe', 'mut', 'let', 'if', 'match'):
-                raise ExtractError('predicate %s: construct `%s` not supported' % (fn.key, t.text))
-            continue
-        if t.text in '({[':
-            depth += 1
-        elif t.text in ')}]':
-            depth -= 1
-        nxt = toks[sigi[x + 1]].text if x + 1 < len(sigi) else ''
-        prv = toks[sigi[x - 1]].text if x > 0 else ''
-        adjacent_next = x + 1 < len(sigi) and sigi[x + 1] == k + 1
-        adjacent_prev = x > 0 and sigi[x - 1] == k - 1
-        if t.text in '|&':
-            if (nxt == t.text and adjacent_next) or (prv == t.text and adjacent_prev):
-                continue  # already || or &&
-            out[k] = t.text * 2
-            depth_ops.setdefault(depth, set()).add(t.text)
-        elif t.text == '^':
-            out[k] = '!='
-            depth_ops.setdefault(depth, set()).add('^')
-    for d, ops in depth_ops.items():
-        if '^' in ops and len(ops) > 1:
-            raise ExtractError('predicate %s: `^` mixed with `|`/`&` at one nesting level; precedence differs in the copy' % fn.key)
-    return ''.join(out)
+        if t.kind != 'p' or t.text not in '|&^':
+            return False
+        nxt = k + 1 < len(toks) and toks[k + 1].text == t.text and toks[k + 1].pos == t.pos + 1
+        prv = k > 0 and toks[k - 1].text == t.text and toks[k - 1].pos == t.pos - 1
+        return not (nxt or prv)
+    if not any(single(k) for k in range(len(toks))):
+        # only logical operators: the body already is legal spec syntax
+        return src[fn.body_start:fn.body_end]
+    for t in toks:
+        if t.kind == 'id' and t.text in ('return', 'loop', 'while', 'for', 'unsafe', 'mut', 'let', 'if', 'match', 'else'):
+            raise ExtractError('predicate %s: construct `%s` not supported' % (fn.key, t.text))
+        if t.kind == 'p' and t.text in ';{}=<>+-*/%':
+            raise ExtractError('predicate %s: token `%s` not supported in a predicate body' % (fn.key, t.text))
+
+    def split_level(ts, op):
+        """split a token list at depth-0 occurrences of the single-character operator `op` (not doubled)"""
+        parts, cur, depth = [], [], 0
+        k = 0
+        while k < len(ts):
+            t = ts[k]
+            if t.kind == 'p' and t.text in '([':
+                depth += 1
+            elif t.kind == 'p' and t.text in ')]':
+                depth -= 1
+            if depth == 0 and t.kind == 'p' and t.text == op:
+                doubled = (k + 1 < len(ts) and ts[k + 1].text == op and ts[k + 1].pos == t.pos + 1) or (k > 0 and ts[k - 1].text == op and ts[k - 1].pos == t.pos - 1)
+                if doubled:
+                    raise ExtractError('predicate %s: `%s%s` mixed with bitwise operators is not supported' % (fn.key, op, op))
+                parts.append(cur)
+                cur = []
+            else:
+                cur.append(t)
+            k += 1
+        parts.append(cur)
+        return parts
+
+    def atom(ts):
+        if not ts:
+            raise ExtractError('predicate %s: empty operand' % fn.key)
+        # strip one pair of enclosing parentheses
+        if ts[0].text == '(':
+            depth = 0
+            for k, t in enumerate(ts):
+                if t.text == '(':
+                    depth += 1
+                elif t.text == ')':
+                    depth -= 1
+                    if depth == 0:
+                        if k == len(ts) - 1:
+                            return '(' + expr(ts[1:-1]) + ')'
+                        break
+        if ts[0].text == '!':
+            return '!' + atom(ts[1:])
+        out = ''
+        k = 0
+        while k < len(ts):
+            t = ts[k]
+            if t.text == '(':
+                # argument list of a method call: translate its contents too
+                depth, m = 0, k
+                while m < len(ts):
+                    if ts[m].text == '(':
+                        depth += 1
+                    elif ts[m].text == ')':
+                        depth -= 1
+                        if depth == 0:
+                            break
+                    m += 1
+                inner = ts[k + 1:m]
+                out += '(' + (expr(inner) if inner else '') + ')'
+                k = m + 1
+                continue
+            if t.kind == 'p' and t.text in '|&^':
+                raise ExtractError('predicate %s: could not isolate operands' % fn.key)
+            out += t.text
+            k += 1
+        return out
+
+    def expr(ts):
+        ors = split_level(ts, '|')
+        if len(ors) > 1:
+            return ' || '.join('(' + expr(o) + ')' for o in ors)
+        xors = split_level(ts, '^')
+        if len(xors) > 1:
+            r = '(' + expr(xors[0]) + ')'
+            for o in xors[1:]:
+                r = '(' + r + ' != (' + expr(o) + '))'
+            return r
+        ands = split_level(ts, '&')
+        if len(ands) > 1:
+            return ' && '.join('(' + expr(a) + ')' for a in ands)
+        return atom(ts)
+
+    return '{ ' + expr(toks) + ' }'
 
 
 # ---------------------------------------------------------------------------- the generator
